@@ -999,141 +999,190 @@ def fuse_staging_lists(fn: ast.FunctionDef) -> bool:
 
 
 def scalarise_records(fn: ast.FunctionDef, records) -> bool:
-    """a local that only ever holds a record of a new NamedTuple / dataclass (bound by `r = Rec(..)` or
-    `r = r._replace(..)`) and is only read field by field is replaced by one local per field:
-    `r = Rec(a=e1, b=e2)` ==> `r__a = e1; r__b = e2`, `r.a` ==> `r__a`."""
+    """locals that only ever hold a record of a new NamedTuple / dataclass (or None) and are only used field by field
+    are replaced by one local per field:
+        r = Rec(a=e1, b=e2)  ==>  r__a = e1; r__b = e2          r.a  ==>  r__a          r.a = v  ==>  r__a = v
+        r = r._replace(a=e)  ==>  r__a = e                       r = None / r is None  ==>  r__is_none = True / r__is_none
+        r = other_record_local  ==>  r__a = other__a; r__b = other__b
+    A record local that is used whole anywhere else (passed on, returned, stored) is left alone."""
     if not records:
         return False
+
+    def rec_of(cname):
+        v = records[cname]
+        return (v[0], v[1]) if isinstance(v, tuple) else (v, {})
     binds: Dict[str, List[ast.stmt]] = {}
     for n in _own_nodes(fn):
         if isinstance(n, ast.Assign) and len(n.targets) == 1 and isinstance(n.targets[0], ast.Name):
             binds.setdefault(n.targets[0].id, []).append(n)
         elif isinstance(n, ast.AnnAssign) and isinstance(n.target, ast.Name) and n.value is not None:
             binds.setdefault(n.target.id, []).append(n)
-    stored_elsewhere = {x.id for n in _own_nodes(fn) if not isinstance(n, ast.Assign)
-                        for x in ([n] if isinstance(n, ast.Name) and isinstance(n.ctx, ast.Store) else [])}
-    # names stored by for-targets, with-items etc. (any Store that is not the direct target of a plain assignment)
     direct = {id(a.targets[0] if isinstance(a, ast.Assign) else a.target) for lst in binds.values() for a in lst}
     other_stores = {n.id for n in _own_nodes(fn) if isinstance(n, ast.Name) and isinstance(n.ctx, ast.Store)
                     and id(n) not in direct}
     params = {a.arg for a in ast.walk(fn.args) if isinstance(a, ast.arg)}
-    changed = False
+
+    def ctor_cls(v):
+        if isinstance(v, ast.Call) and isinstance(v.func, ast.Name) and v.func.id in records and \
+                not any(isinstance(x, ast.Starred) for x in v.args) and all(k.arg for k in v.keywords):
+            return v.func.id
+        return None
+    cand: Dict[str, str] = {}
     for r, assigns in binds.items():
         if r in other_stores or r in params:
             continue
-        cls = None
-        ok = True
-        noneable = False
-        for a in assigns:
+        cs = {ctor_cls(a.value) for a in assigns} - {None}
+        if len(cs) == 1:
+            cand[r] = next(iter(cs))
+    # names that only ever receive another candidate (`open_interval = opened`) or None join their source's class
+    grew = True
+    while grew:
+        grew = False
+        for r, assigns in binds.items():
+            if r in cand or r in other_stores or r in params:
+                continue
+            srcs = {cand.get(a.value.id) for a in assigns if isinstance(a.value, ast.Name)}
+            if srcs and None not in srcs and len(srcs) == 1 and all(
+                    isinstance(a.value, ast.Name) or (isinstance(a.value, ast.Constant) and a.value.value is None)
+                    for a in assigns):
+                cand[r] = next(iter(srcs))
+                grew = True
+    if not cand:
+        return False
+    parents = {}
+    for n in _own_nodes(fn):
+        for ch in ast.iter_child_nodes(n):
+            parents[id(ch)] = n
+    for n in fn.body:
+        parents.setdefault(id(n), fn)
+
+    def valid(r) -> bool:
+        cls = cand[r]
+        fields, _d = rec_of(cls)
+        for a in binds[r]:
             v = a.value
-            if isinstance(v, ast.Call) and isinstance(v.func, ast.Name) and v.func.id in records and \
-                    not any(isinstance(x, ast.Starred) for x in v.args) and all(k.arg for k in v.keywords):
-                cls = cls or v.func.id
-                ok = ok and cls == v.func.id
-            elif isinstance(v, ast.Call) and isinstance(v.func, ast.Attribute) and v.func.attr == '_replace' and \
-                    isinstance(v.func.value, ast.Name) and v.func.value.id == r and not v.args and all(k.arg for k in v.keywords):
-                pass
-            elif isinstance(v, ast.Constant) and v.value is None:
-                noneable = True
-            else:
-                ok = False
-        if not ok or cls is None:
-            continue
-        fields = records[cls][0] if isinstance(records[cls], tuple) else records[cls]
-        defaults = records[cls][1] if isinstance(records[cls], tuple) else {}
-        # every other use is r.<field>  (or a test `r is None` / `r is not None` when r may be None)
-        uses_ok = True
-        parents = {}
-        for n in _own_nodes(fn):
-            for ch in ast.iter_child_nodes(n):
-                parents[id(ch)] = n
+            if ctor_cls(v) == cls:
+                continue
+            if isinstance(v, ast.Call) and isinstance(v.func, ast.Attribute) and v.func.attr == '_replace' and \
+                    isinstance(v.func.value, ast.Name) and v.func.value.id == r and not v.args and \
+                    all(k.arg in fields for k in v.keywords):
+                continue
+            if isinstance(v, ast.Constant) and v.value is None:
+                continue
+            if isinstance(v, ast.Name) and cand.get(v.id) == cls:
+                continue
+            return False
         for n in _own_nodes(fn):
             if isinstance(n, ast.Name) and n.id == r and isinstance(n.ctx, ast.Load):
                 par = parents.get(id(n))
-                if isinstance(par, ast.Attribute) and par.value is n and par.attr in fields and isinstance(par.ctx, ast.Load):
+                if isinstance(par, ast.Attribute) and par.value is n and (par.attr in fields or par.attr == '_replace'):
                     continue
-                if isinstance(par, ast.Attribute) and par.attr == '_replace':
-                    continue
-                if noneable and isinstance(par, ast.Compare) and len(par.ops) == 1 and par.left is n and \
+                if isinstance(par, ast.Compare) and len(par.ops) == 1 and par.left is n and \
                         isinstance(par.ops[0], (ast.Is, ast.IsNot)) and isinstance(par.comparators[0], ast.Constant) and \
                         par.comparators[0].value is None:
                     continue
-                uses_ok = False
-        if not uses_ok:
-            continue
-
-        class Fld(ast.NodeTransformer):
-            def visit_Compare(self, n):
-                n = self.generic_visit(n)
-                if noneable and len(n.ops) == 1 and isinstance(n.left, ast.Name) and n.left.id == r and \
-                        isinstance(n.ops[0], (ast.Is, ast.IsNot)) and isinstance(n.comparators[0], ast.Constant) and \
-                        n.comparators[0].value is None:
-                    flag = ast.Name(id=f'{r}__is_none', ctx=ast.Load())
-                    return ast.copy_location(flag if isinstance(n.ops[0], ast.Is) else
-                                             ast.UnaryOp(op=ast.Not(), operand=flag), n)
-                return n
-
-            def visit_Attribute(self, n):
-                n = self.generic_visit(n)
-                if isinstance(n.value, ast.Name) and n.value.id == r and n.attr in fields and isinstance(n.ctx, ast.Load):
-                    return ast.copy_location(ast.Name(id=f'{r}__{n.attr}', ctx=ast.Load()), n)
-                return n
-
-        def rewrite(stmts):
-            out = []
-            for st in stmts:
-                for fld in ('body', 'orelse', 'finalbody'):
-                    sub = getattr(st, fld, None)
-                    if isinstance(sub, list) and sub and isinstance(sub[0], ast.stmt):
-                        setattr(st, fld, rewrite(sub))
-                for hd in getattr(st, 'handlers', []) or []:
-                    hd.body = rewrite(hd.body)
-                if any(st is a for a in assigns):
-                    v = st.value
-                    pairs = []
-                    if isinstance(v, ast.Constant):      # r = None
-                        new = [ast.Assign(targets=[ast.Name(id=f'{r}__is_none', ctx=ast.Store())],
-                                          value=ast.Constant(value=True))]
-                        for s_ in new:
-                            ast.copy_location(s_, st)
-                            ast.fix_missing_locations(s_)
-                        out += new
+                if isinstance(par, (ast.Assign, ast.AnnAssign)) and par.value is n:
+                    t = par.targets[0] if isinstance(par, ast.Assign) and len(par.targets) == 1 else \
+                        getattr(par, 'target', None)
+                    if isinstance(t, ast.Name) and cand.get(t.id) == cls:
                         continue
-                    if isinstance(v.func, ast.Name):
-                        for f_, e in zip(fields, v.args):
-                            pairs.append((f_, e))
-                        pairs += [(k.arg, k.value) for k in v.keywords]
-                        given = {p_ for p_, _e in pairs}
-                        missing = [f_ for f_ in fields if f_ not in given]
-                        if any(f_ not in defaults for f_ in missing):
-                            out.append(st)
-                            continue
-                        pairs += [(f_, copy.deepcopy(defaults[f_])) for f_ in missing]
-                        if noneable:
-                            pairs.append(('is_none', ast.Constant(value=False)))
-                    else:
-                        pairs = [(k.arg, k.value) for k in v.keywords]
-                    if any(p not in fields and p != 'is_none' for p, _ in pairs):
-                        out.append(st)
-                        continue
-                    # evaluate every new value before any field is overwritten
-                    tmp = [ast.Assign(targets=[ast.Name(id=f'{r}__{p}__new', ctx=ast.Store())], value=Fld().visit(e))
-                           for p, e in pairs]
-                    fin = [ast.Assign(targets=[ast.Name(id=f'{r}__{p}', ctx=ast.Store())],
-                                      value=ast.Name(id=f'{r}__{p}__new', ctx=ast.Load())) for p, _ in pairs]
-                    new = tmp + fin if len(pairs) > 1 and isinstance(v.func, ast.Attribute) else \
-                        [ast.Assign(targets=[ast.Name(id=f'{r}__{p}', ctx=ast.Store())], value=Fld().visit(e))
-                         for p, e in pairs]
+                return False
+        return True
+    shrunk = True
+    while shrunk:
+        shrunk = False
+        for r in list(cand):
+            if not valid(r):
+                del cand[r]
+                shrunk = True
+    if not cand:
+        return False
+    noneable = {r for r in cand if any(isinstance(a.value, ast.Constant) and a.value.value is None for a in binds[r])}
+    # a candidate that receives a None-able candidate is None-able too
+    grew = True
+    while grew:
+        grew = False
+        for r in cand:
+            if r not in noneable and any(isinstance(a.value, ast.Name) and a.value.id in noneable for a in binds[r]):
+                noneable.add(r)
+                grew = True
+    all_assigns = {id(a): r for r in cand for a in binds[r]}
+
+    class Fld(ast.NodeTransformer):
+        def visit_Compare(self, n):
+            n = self.generic_visit(n)
+            if len(n.ops) == 1 and isinstance(n.left, ast.Name) and n.left.id in cand and \
+                    isinstance(n.ops[0], (ast.Is, ast.IsNot)) and isinstance(n.comparators[0], ast.Constant) and \
+                    n.comparators[0].value is None:
+                flag = ast.Name(id=f'{n.left.id}__is_none', ctx=ast.Load()) if n.left.id in noneable else \
+                    ast.Constant(value=False)
+                return ast.copy_location(flag if isinstance(n.ops[0], ast.Is) else
+                                         ast.UnaryOp(op=ast.Not(), operand=flag), n)
+            return n
+
+        def visit_Attribute(self, n):
+            n = self.generic_visit(n)
+            if isinstance(n.value, ast.Name) and n.value.id in cand and n.attr in rec_of(cand[n.value.id])[0]:
+                return ast.copy_location(ast.Name(id=f'{n.value.id}__{n.attr}', ctx=n.ctx), n)
+            return n
+
+    def field_assigns(r, st) -> Optional[List[ast.stmt]]:
+        cls = cand[r]
+        fields, defaults = rec_of(cls)
+        v = st.value
+        if isinstance(v, ast.Constant):
+            return [ast.Assign(targets=[ast.Name(id=f'{r}__is_none', ctx=ast.Store())], value=ast.Constant(value=True))]
+        if isinstance(v, ast.Name):
+            new = [ast.Assign(targets=[ast.Name(id=f'{r}__{f_}', ctx=ast.Store())],
+                              value=ast.Name(id=f'{v.id}__{f_}', ctx=ast.Load())) for f_ in fields]
+            if r in noneable:
+                new.append(ast.Assign(targets=[ast.Name(id=f'{r}__is_none', ctx=ast.Store())],
+                                      value=ast.Name(id=f'{v.id}__is_none', ctx=ast.Load()) if v.id in noneable
+                                      else ast.Constant(value=False)))
+            return new
+        if ctor_cls(v) == cls:
+            pairs = list(zip(fields, v.args)) + [(k.arg, k.value) for k in v.keywords]
+            given = {p_ for p_, _e in pairs}
+            missing = [f_ for f_ in fields if f_ not in given]
+            if any(p_ not in fields for p_ in given) or any(f_ not in defaults for f_ in missing):
+                return None
+            pairs += [(f_, copy.deepcopy(defaults[f_])) for f_ in missing]
+            new = [ast.Assign(targets=[ast.Name(id=f'{r}__{p_}', ctx=ast.Store())], value=Fld().visit(e))
+                   for p_, e in pairs]
+            if r in noneable:
+                new.append(ast.Assign(targets=[ast.Name(id=f'{r}__is_none', ctx=ast.Store())], value=ast.Constant(value=False)))
+            return new
+        # r = r._replace(a=e, b=e2): every new value is computed before a field is overwritten
+        pairs = [(k.arg, k.value) for k in v.keywords]
+        if len(pairs) == 1:
+            return [ast.Assign(targets=[ast.Name(id=f'{r}__{pairs[0][0]}', ctx=ast.Store())], value=Fld().visit(pairs[0][1]))]
+        tmp = [ast.Assign(targets=[ast.Name(id=f'{r}__{p_}__new', ctx=ast.Store())], value=Fld().visit(e)) for p_, e in pairs]
+        fin = [ast.Assign(targets=[ast.Name(id=f'{r}__{p_}', ctx=ast.Store())],
+                          value=ast.Name(id=f'{r}__{p_}__new', ctx=ast.Load())) for p_, _e in pairs]
+        return tmp + fin
+
+    def rewrite(stmts):
+        out = []
+        for st in stmts:
+            for fld in ('body', 'orelse', 'finalbody'):
+                sub = getattr(st, fld, None)
+                if isinstance(sub, list) and sub and isinstance(sub[0], ast.stmt):
+                    setattr(st, fld, rewrite(sub))
+            for hd in getattr(st, 'handlers', []) or []:
+                hd.body = rewrite(hd.body)
+            if id(st) in all_assigns:
+                new = field_assigns(all_assigns[id(st)], st)
+                if new is not None:
                     for s_ in new:
                         ast.copy_location(s_, st)
                         ast.fix_missing_locations(s_)
                     out += new
                     continue
-                out.append(Fld().visit(st))
-            return out
-        fn.body = rewrite(fn.body)
-        changed = True
-    return changed
+            out.append(Fld().visit(st))
+        return out
+    fn.body = rewrite(fn.body)
+    ast.fix_missing_locations(fn)
+    return True
 
 
 def functional_to_loops(fn: ast.FunctionDef, helper_names=()) -> bool:
@@ -1316,6 +1365,28 @@ def normalise_module(tree: ast.Module, modname: str) -> Dict[str, List[str]]:
     from .unroll import unroll_in_place
     inl = Inliner(helpers)
     inl.unique_methods = {k for k, v in method_count.items() if v == 1}
+    # module-level names bound once to a record of a new record class: NAME.field is the constructor argument
+    mod_records: Dict[str, Dict[str, ast.AST]] = {}
+    top_counts: Dict[str, int] = {}
+    for st in tree.body:
+        for t in (st.targets if isinstance(st, ast.Assign) else [st.target] if isinstance(st, ast.AnnAssign) else []):
+            if isinstance(t, ast.Name):
+                top_counts[t.id] = top_counts.get(t.id, 0) + 1
+    for st in tree.body:
+        tgt = st.targets[0] if isinstance(st, ast.Assign) and len(st.targets) == 1 else \
+            st.target if isinstance(st, ast.AnnAssign) else None
+        v = getattr(st, 'value', None)
+        if isinstance(tgt, ast.Name) and top_counts.get(tgt.id) == 1 and isinstance(v, ast.Call) and \
+                isinstance(v.func, ast.Name) and v.func.id in records and \
+                not any(isinstance(x, ast.Starred) for x in v.args) and all(k.arg for k in v.keywords):
+            flds, dflt = records[v.func.id]
+            vals = dict(zip(flds, v.args))
+            vals.update({k.arg: k.value for k in v.keywords})
+            for f_ in flds:
+                if f_ not in vals and f_ in dflt:
+                    vals[f_] = dflt[f_]
+            if all(f_ in vals for f_ in flds):
+                mod_records[tgt.id] = vals
     # literal tables bound once at module level (a dispatch table moved out of the function)
     mod_tables: Dict[str, ast.AST] = {}
     counts: Dict[str, int] = {}
@@ -1336,6 +1407,17 @@ def normalise_module(tree: ast.Module, modname: str) -> Dict[str, List[str]]:
         if isinstance(tgt, ast.Name) and isinstance(getattr(st, 'value', None), (ast.Dict, ast.Tuple, ast.List, ast.Set)) \
                 and counts.get(tgt.id) == 1 and tgt.id not in known_tops:
             new_consts[tgt.id] = st.value
+    # literal tables bound once in a class body that the reference tree does not have
+    class_consts: Dict[str, Dict[str, ast.AST]] = {}
+    known_cc = set((inv.get('__classconsts__') or '').split())
+    for c_ in tree.body:
+        if isinstance(c_, ast.ClassDef):
+            for b_ in c_.body:
+                tgt = b_.targets[0] if isinstance(b_, ast.Assign) and len(b_.targets) == 1 else \
+                    b_.target if isinstance(b_, ast.AnnAssign) else None
+                if isinstance(tgt, ast.Name) and isinstance(getattr(b_, 'value', None), (ast.Tuple, ast.List, ast.Dict, ast.Set)) \
+                        and f'{c_.name}.{tgt.id}' not in known_cc:
+                    class_consts.setdefault(c_.name, {})[tgt.id] = b_.value
     for _pass in range(4):
         any_change = False
         for q in sorted(changed):
@@ -1357,6 +1439,43 @@ def normalise_module(tree: ast.Module, modname: str) -> Dict[str, List[str]]:
                 if inl.helpers and inline_function(fn, cls, inl):
                     any_change = True
                     record.setdefault(q, []).extend(sorted(set(inl.inlined[before:])))
+                if cls is not None and class_consts.get(cls.name):
+                    cc = class_consts[cls.name]
+
+                    class _CC(ast.NodeTransformer):
+                        hit = False
+
+                        def visit_Attribute(self, n):
+                            n = self.generic_visit(n)
+                            if isinstance(n.ctx, ast.Load) and isinstance(n.value, ast.Name) and \
+                                    n.value.id in ('self', 'cls', cls.name) and n.attr in cc:
+                                _CC.hit = True
+                                return ast.copy_location(copy.deepcopy(cc[n.attr]), n)
+                            return n
+                    _CC.hit = False
+                    _CC().visit(fn)
+                    if _CC.hit:
+                        any_change = True
+                        record.setdefault(q, []).append('class-level literal read in place')
+                if mod_records:
+                    shadow_r = _stored_names(fn) | {a.arg for a in ast.walk(fn) if isinstance(a, ast.arg)}
+
+                    class _MR(ast.NodeTransformer):
+                        hit = False
+
+                        def visit_Attribute(self, n):
+                            n = self.generic_visit(n)
+                            if isinstance(n.ctx, ast.Load) and isinstance(n.value, ast.Name) and \
+                                    n.value.id in mod_records and n.value.id not in shadow_r and \
+                                    n.attr in mod_records[n.value.id]:
+                                _MR.hit = True
+                                return ast.copy_location(copy.deepcopy(mod_records[n.value.id][n.attr]), n)
+                            return n
+                    _MR.hit = False
+                    _MR().visit(fn)
+                    if _MR.hit:
+                        any_change = True
+                        record.setdefault(q, []).append('module-level record read field by field')
                 if new_consts:
                     shadow = _stored_names(fn) | {a.arg for a in ast.walk(fn) if isinstance(a, ast.arg)}
                     env_c = {k: v for k, v in new_consts.items() if k not in shadow}
@@ -1406,5 +1525,14 @@ def write_inventory(root: str, path: str = _INV_PATH) -> int:
                         tops.append(t.id)
             inv['.'.join(parts)]['__toplevel__'] = ' '.join(sorted(set(tops)))
             inv['.'.join(parts)]['__classes__'] = ' '.join(sorted(c_.name for c_ in tree.body if isinstance(c_, ast.ClassDef)))
+            ccs = []
+            for c_ in tree.body:
+                if isinstance(c_, ast.ClassDef):
+                    for b_ in c_.body:
+                        tgt = b_.targets[0] if isinstance(b_, ast.Assign) and len(b_.targets) == 1 else \
+                            b_.target if isinstance(b_, ast.AnnAssign) else None
+                        if isinstance(tgt, ast.Name):
+                            ccs.append(f'{c_.name}.{tgt.id}')
+            inv['.'.join(parts)]['__classconsts__'] = ' '.join(sorted(ccs))
     json.dump(inv, open(path, 'w'), indent=0, sort_keys=True)
     return n
